@@ -423,6 +423,47 @@ def r17c(P, R):
     R.floor("R17-c", "schema-order iterations in the checker", n, 1)
 
 
+TRUNCATING = {"take_while", "skip_while", "take", "skip", "step_by", "map_while", "nth", "last"}
+
+
+def r17f(P, R):
+    """a scan over *all* definitions of the schema (Schema::iter_types / iter_directives) is cut by position nowhere in the workspace:
+    where the scan stops depends on the order in which the definitions were registered, which differs between the routes and under
+    permutation of the schema files"""
+    srcs = {"graphql_type_system::schema::Schema::iter_types", "graphql_type_system::schema::Schema::iter_directives"}
+    hits = []
+    for f in sorted(P.fns.values(), key=lambda g: g.path):
+        if f.derived or "::tests" in f.path:
+            continue
+        acc = f.nodes()
+        for i, (c, _) in enumerate(acc):
+            if c.get("k") not in ("MethodCall", "Call") or call_name(c) not in srcs:
+                continue
+            cur, ci = c, i
+            while True:
+                pi = acc[ci][1]
+                if pi < 0:
+                    break
+                p = acc[pi][0]
+                if p.get("k") == "MethodCall" and p.get("recv") is cur:
+                    if p["method"] in TRUNCATING:
+                        hits.append((f, p["method"]))
+                        break
+                    if p["method"] in ORDER_FREE_CONSUMERS or p["method"] in ("collect", "for_each", "count", "find", "find_map", "position"):
+                        break
+                    cur, ci = p, pi
+                    continue
+                if p.get("k") in ("AddrOf", "DropTemps", "Use"):
+                    cur, ci = p, pi
+                    continue
+                break
+    for f, m in hits:
+        R.violated("R17-c", "truncated-scan:%s" % short(f.path), "%s cuts its scan over all definitions of the schema with `%s`: definitions registered after the cut are "
+                   "never seen, so the result depends on the order of the schema's definitions (SDL order vs the order of the introspection JSON)" % (f.path, m), loc=f.loc())
+    if not hits:
+        R.holds("R17-c", "truncated-scan:none", "no scan over Schema::iter_types/iter_directives is cut by position")
+
+
 def r17e(P, R):
     """a decision taken while files are merged one by one must not depend on which file comes first (the load order is the glob's
     alphabetical order, an accident of file naming).  In a loop that dispatches on the variant of each element and accumulates per
@@ -529,6 +570,37 @@ def r17d(P, R):
                    "history" % (f.path, ", ".join(reversed(names))), loc=f.loc())
     if not opens:
         R.holds("R17-d", "untruncated-write:none", "no OpenOptions write without truncate/create_new/append in the workspace")
+    # ... and what a run writes does not depend on what a previous run left there: the function that writes a file does not read
+    # the contents (or metadata) of that same path
+    from prov import Prov
+    from templates import inlined
+    READS = ("std::fs::read", "std::fs::read_to_string", "std::fs::metadata", "std::fs::File::open", "std::fs::symlink_metadata")
+    WRITES = ("std::fs::write", "std::fs::File::create", "std::fs::File::create_new", "std::fs::OpenOptions::open")
+    rb = []
+    for f0 in sorted(P.fns.values(), key=lambda g: g.path):
+        if f0.derived or "::tests" in f0.path or not f0.path.startswith("nitrogql_cli::"):
+            continue
+        if not any(x.get("k") in ("Call", "MethodCall") and (call_name(x) or "").startswith(WRITES) for x in f0.walk()):
+            continue
+        f = inlined(P, f0, depth=1)
+        pv = Prov(f)
+
+        def path_params(x):
+            args = ([x["recv"]] if x.get("k") == "MethodCall" else []) + x["args"]
+            return {a[1] for a in pv.atoms(args[0]) if a[0] == "param"} if args else set()
+        written = set()
+        for x in f.walk():
+            if x.get("k") in ("Call", "MethodCall") and (call_name(x) or "").startswith(WRITES):
+                written |= path_params(x)
+        for x in f.walk():
+            if x.get("k") in ("Call", "MethodCall") and (call_name(x) or "").startswith(READS) and not (call_name(x) or "").startswith("std::fs::read_dir"):
+                if path_params(x) & written:
+                    rb.append((f0, (call_name(x) or "").split("::")[-1]))
+    for f0, what in rb:
+        R.violated("R17-d", "read-before-write:%s" % short(f0.path), "%s reads (`%s`) the very path it writes: whether and what it writes depends on what a previous run "
+                   "left on disk, so the files of one project are not a function of the project alone" % (f0.path, what), loc=f0.loc())
+    if not rb:
+        R.holds("R17-d", "read-before-write:none", "no writer of the CLI reads back the path it writes")
     holders = global_state_holders(P)
     R.floor("R17-d", "global state holders found in the workspace (detector control)", len(holders), 6)
     entries = [P.fn("graphql_loader::js_printer::print_js"), P.fn("nitrogql_cli::generate::run_generate"), P.fn("nitrogql_cli::check::run_check")]
@@ -581,7 +653,7 @@ def r17pc(P, R):
             "self-check: the time/RNG detector does not see SystemTime::now in the control crate")
 
 
-RULES = [("R17-a", r17a), ("R17-b", r17b), ("R17-c", r17c), ("R17-c", r17e), ("R17-d", r17d), ("R17-pc", r17pc)]
+RULES = [("R17-a", r17a), ("R17-b", r17b), ("R17-c", r17c), ("R17-c", r17e), ("R17-c", r17f), ("R17-d", r17d), ("R17-pc", r17pc)]
 EXPLANATION = (
     "Hash-seed independence, for all inputs and all seeds: every expression in the workspace that exposes the iteration order "
     "of a std HashMap/HashSet (iter/keys/values/drain/retain/into_iter, for-loops, Debug formatting; resolved by receiver type, "
